@@ -1,106 +1,181 @@
 // C18: results do not depend on how the backend splits transfers.  The same
-// assertions as in the plain harnesses, over ChunkyFile: every read/write may
-// return a solver-chosen short count or Interrupted (budget 2).
+// assertions as in the plain harnesses, over a backend in which ONE chosen
+// transfer (the `at`-th read/write call, concrete per instance) is cut short
+// (to 1 byte or to n-1 bytes) or refused with `Interrupted`; everything else,
+// in particular all data, is symbolic.  (A backend with solver-chosen chunking
+// of every call was measured first: the loops of write_all/read_exact then have
+// symbolic trip counts and CBMC does not get through symbolic execution.)
 use super::env::*;
 use super::h_dirent::*;
 use super::h_stor::*;
 use super::util::*;
-use crate::internal::alloc::vacc as aacc;
-use crate::internal::directory::vacc as dacc;
-use crate::internal::minialloc::vacc as macc;
 use crate::internal::stream::vacc as sacc;
 use crate::internal::{DirEntry, MiniAllocator, SectorInit, Sectors, Validation, Version};
 
-pub type CF = ChunkyFile<ArrFile<NSTOR>>;
+pub struct Chunky<T> {
+    pub f: T,
+    pub at: usize,   // index of the read/write call that is disturbed
+    pub mode: u8,    // 0 = Interrupted, 1 = one byte, 2 = n-1 bytes
+    pub calls: usize,
+    pub hit: bool,
+}
+impl<T> Chunky<T> {
+    pub fn new(f: T, at: usize, mode: u8) -> Self {
+        Chunky { f, at, mode, calls: 0, hit: false }
+    }
+    fn chunk(&mut self, n: usize) -> Option<usize> {
+        let c = self.calls;
+        self.calls += 1;
+        if c != self.at || n <= 1 {
+            return Some(n);
+        }
+        self.hit = true;
+        match self.mode {
+            0 => None,
+            1 => Some(1),
+            _ => Some(n - 1),
+        }
+    }
+}
+impl<T: std::io::Read> std::io::Read for Chunky<T> {
+    fn read(&mut self, buf: &mut [u8]) -> std::io::Result<usize> {
+        match self.chunk(buf.len()) {
+            None => Err(std::io::Error::from(std::io::ErrorKind::Interrupted)),
+            Some(k) => self.f.read(&mut buf[..k]),
+        }
+    }
+}
+impl<T: std::io::Write> std::io::Write for Chunky<T> {
+    fn write(&mut self, buf: &[u8]) -> std::io::Result<usize> {
+        match self.chunk(buf.len()) {
+            None => Err(std::io::Error::from(std::io::ErrorKind::Interrupted)),
+            Some(k) => self.f.write(&buf[..k]),
+        }
+    }
+    fn flush(&mut self) -> std::io::Result<()> {
+        self.f.flush()
+    }
+}
+impl<T: std::io::Seek> std::io::Seek for Chunky<T> {
+    fn seek(&mut self, pos: std::io::SeekFrom) -> std::io::Result<u64> {
+        self.f.seek(pos)
+    }
+}
+
+pub type CF = Chunky<ArrFile<NSTOR>>;
 
 // fresh sectors are fully initialised whatever the chunking (Zero / Fat)
 macro_rules! chunky_init {
-    ($name:ident, $init:expr, $byte:expr) => {
+    ($name:ident, $init:expr, $byte:expr, $at:expr, $mode:expr) => {
         #[kani::proof]
         #[kani::stub(std::fmt::format, stub_format)]
         #[kani::stub(std::io::copy, stub_io_copy)]
         #[kani::unwind(140)]
         fn $name() {
-            let data: [u8; 2048] = kani::any();
-            let file = ChunkyFile { f: ArrFile::new(data, 1024), budget: 2 };
+            let mut data = [0u8; 2048];
+            let stale: [u8; 512] = kani::any(); // previous content of the sector being re-initialised
+            data[512..1024].copy_from_slice(&stale);
+            let file = Chunky::new(ArrFile::new(data, 1024), $at, $mode);
             let mut sectors = Sectors::new(Version::V3, 1024, file);
-            let which: bool = kani::any(); // re-initialise sector 0 or append sector 1
-            let id = if which { 1 } else { 0 };
-            let r = sectors.init_sector(id, $init);
-            assert!(r.is_ok(), "C18: init_sector failed under short writes / Interrupted");
-            assert!(sectors.num_sectors() == if which { 2 } else { 1 }, "C03: sector count after init");
+            let r = sectors.init_sector(0, $init);
+            assert!(r.is_ok(), "C18: init_sector failed under a short write / Interrupted");
+            assert!(sectors.num_sectors() == 1, "C03: sector count after init");
             let f = &sectors.inner().f;
-            assert!(f.len == 512 * (2 + id as usize) || !which, "C18/C03: file length after appending a sector");
-            let k = any_usize_below(512);
-            assert!(f.data[512 * (1 + id as usize) + k] == $byte, "C18/C08: sector not fully initialised when the backend splits the write");
-            kani::cover!(sectors.inner().budget < 2, "a transfer was split or interrupted");
+            let mut ok = true;
+            let mut k = 0;
+            while k < 128 {
+                ok &= get32(&f.data[..], 512 + 4 * k) == u32::from_le_bytes([$byte, $byte, $byte, $byte]);
+                k += 1;
+            }
+            assert!(ok, "C18/C08: sector not fully initialised when the backend splits or interrupts the write");
+            kani::cover!(sectors.inner().hit, "a transfer was split or interrupted");
         }
     };
 }
-chunky_init!(chunky_init_zero, SectorInit::Zero, 0u8);
-chunky_init!(chunky_init_fat, SectorInit::Fat, 0xffu8);
+chunky_init!(chunky_init_zero_one, SectorInit::Zero, 0u8, 0, 1);
+chunky_init!(chunky_init_zero_short, SectorInit::Zero, 0u8, 0, 2);
+chunky_init!(chunky_init_zero_intr, SectorInit::Zero, 0u8, 0, 0);
+chunky_init!(chunky_init_fat_one, SectorInit::Fat, 0xffu8, 5, 1);
+chunky_init!(chunky_init_fat_intr, SectorInit::Fat, 0xffu8, 0, 0);
 
 // directory entry codec over a chunky backend
-#[kani::proof]
-#[kani::stub(std::fmt::format, stub_format)]
-#[kani::unwind(140)]
-fn chunky_dirent_roundtrip() {
-    // concrete entry except the state bits and one time: the subject is the chunking
-    let mut e = em_blank();
-    e.ty = 1; e.nlen = 2; e.name[0] = b'a'; e.name[1] = b'b'; e.color = 1;
-    e.state = kani::any();
-    e.mt = kani::any();
-    let d = to_dirent(&e);
-    let mut f = ChunkyFile { f: ArrFile::new([0xEEu8; 128], 0), budget: 2 };
-    assert!(d.write_to(&mut f).is_ok(), "C18: write_to failed under short writes / Interrupted");
-    let want = enc(&e);
-    let k = any_usize_below(128);
-    assert!(f.f.data[k] == want[k] && f.f.len == 128, "C18: directory entry bytes depend on the chunking of writes");
-    f.f.pos = 0;
-    f.budget = 2;
-    let back = DirEntry::read_from(&mut f, Version::V3, Validation::Strict);
-    assert!(back.is_ok() && same(&back.unwrap(), &e), "C18: directory entry read depends on the chunking of reads");
-    kani::cover!(f.budget < 2, "a read was split or interrupted");
+macro_rules! chunky_dirent {
+    ($name:ident, $at:expr, $mode:expr) => {
+        #[kani::proof]
+        #[kani::stub(std::fmt::format, stub_format)]
+        #[kani::unwind(140)]
+        fn $name() {
+            let mut e = em_blank();
+            e.ty = 1; e.nlen = 2; e.name[0] = b'a'; e.name[1] = b'b'; e.color = 1;
+            e.state = kani::any();
+            e.mt = kani::any();
+            let d = to_dirent(&e);
+            let mut f = Chunky::new(ArrFile::new([0xEEu8; 128], 0), $at, $mode);
+            assert!(d.write_to(&mut f).is_ok(), "C18: write_to failed under a short write / Interrupted");
+            let want = enc(&e);
+            let mut ok = f.f.len == 128;
+            let mut k = 0;
+            while k < 128 { ok &= f.f.data[k] == want[k]; k += 1; }
+            assert!(ok, "C18: directory entry bytes depend on the chunking of writes");
+            let hitw = f.hit;
+            f.f.pos = 0;
+            f.calls = 0;
+            f.hit = false;
+            let back = DirEntry::read_from(&mut f, Version::V3, Validation::Strict);
+            assert!(back.is_ok() && same(&back.unwrap(), &e), "C18: directory entry read depends on the chunking of reads");
+            kani::cover!(hitw && f.hit, "a write and a read were split or interrupted");
+        }
+    };
 }
+chunky_dirent!(chunky_dirent_one, 40, 1);   // the 41st call writes/reads a multi-byte field (state bits / time)
+chunky_dirent!(chunky_dirent_intr, 40, 0);
 
-fn mk_chunky(p: Parts) -> MiniAllocator<CF> {
-    let file = ChunkyFile { f: ArrFile::new(p.data, p.len), budget: 2 };
+fn mk_chunky(p: Parts, at: usize, mode: u8) -> MiniAllocator<CF> {
+    let file = Chunky::new(ArrFile::new(p.data, p.len), at, mode);
     assemble(file, p.len, p.fat, p.entries, p.mf, p.mfree)
 }
 
 // stream storage write + read back across a mini sector boundary over a chunky backend
-#[kani::proof]
-#[kani::stub(std::fmt::format, stub_format)]
-#[kani::stub(std::io::copy, stub_io_copy)]
-#[kani::unwind(140)]
-fn chunky_stor_write_read() {
-    let p = small_parts(&[1, EOC, EOC], 0, 100, 2, 64);
-    let before = p.data;
-    let mut m = mk_chunky(p);
-    let buf: [u8; 10] = kani::any();
-    let r = sacc::write_data(&mut m, 1, 60, &buf);
-    assert!(r.is_ok(), "C18: write failed under short writes / Interrupted");
-    let mut ok = true;
-    let mut pz = 0u64;
-    while pz < 100 {
-        let got = data_byte(&m.inner().f.data, 1, pz);
-        let want = if pz >= 60 && pz < 70 { buf[(pz - 60) as usize] } else { before[soff(3) + pz as usize] };
-        ok &= got == want;
-        pz += 1;
-    }
-    assert!(ok, "C18: stored bytes depend on the chunking of writes");
-    let mut back = [0u8; 12];
-    let r = sacc::read_data(&mut m, 1, 58, &mut back);
-    assert!(r.is_ok() && r.unwrap() == 12, "C18: read failed or short under short reads / Interrupted");
-    ok = true;
-    let mut i = 0;
-    while i < 12 {
-        let q = 58 + i;
-        let want = if q >= 60 && q < 70 { buf[q - 60] } else { before[soff(3) + q] };
-        ok &= back[i] == want;
-        i += 1;
-    }
-    assert!(ok, "C18: bytes read depend on the chunking of reads");
-    kani::cover!(m.inner().budget < 2, "a transfer was split or interrupted");
-    std::mem::forget(m);
+macro_rules! chunky_stor {
+    ($name:ident, $at:expr, $mode:expr) => {
+        #[kani::proof]
+        #[kani::stub(std::fmt::format, stub_format)]
+        #[kani::stub(std::io::copy, stub_io_copy)]
+        #[kani::unwind(140)]
+        fn $name() {
+            let p = small_parts(&[1, EOC, EOC], 0, 100, 2, 64);
+            let before = p.data;
+            let mut m = mk_chunky(p, $at, $mode);
+            let buf: [u8; 10] = kani::any();
+            let r = sacc::write_data(&mut m, 1, 60, &buf);
+            assert!(r.is_ok(), "C18: write failed under a short write / Interrupted");
+            let hitw = m.inner().hit;
+            let (now, nlen) = stream_bytes(&m.inner().f.data, 1);
+            let mut ok = nlen == 100;
+            let mut pz = 0usize;
+            while pz < 100 {
+                let want = if pz >= 60 && pz < 70 { buf[pz - 60] } else { before[soff(3) + pz] };
+                ok &= now[pz] == want;
+                pz += 1;
+            }
+            assert!(ok, "C18: stored bytes depend on the chunking of writes");
+            let mut back = [0u8; 12];
+            let r = sacc::read_data(&mut m, 1, 58, &mut back);
+            assert!(r.is_ok() && r.unwrap() == 12, "C18: read failed or short under short reads / Interrupted");
+            ok = true;
+            let mut i = 0;
+            while i < 12 {
+                let q = 58 + i;
+                let want = if q >= 60 && q < 70 { buf[q - 60] } else { before[soff(3) + q] };
+                ok &= back[i] == want;
+                i += 1;
+            }
+            assert!(ok, "C18: bytes read depend on the chunking of reads");
+            kani::cover!(hitw || m.inner().hit, "a transfer was split or interrupted");
+            std::mem::forget(m);
+        }
+    };
 }
+chunky_stor!(chunky_stor_first_one, 0, 1);
+chunky_stor!(chunky_stor_second_short, 1, 2);
+chunky_stor!(chunky_stor_first_intr, 0, 0);
